@@ -74,6 +74,7 @@ type Config struct {
 	LiveRounds int    // PolRR: rounds without progress that count as livelock (default 1000)
 	SlowSite   string // goroutines whose spawn site contains this are slow: ...
 	SlowPct    int    // ... with this probability (percent) a released step first sleeps a seeded time
+	CrashIO    int    // the simulated process dies in front of its CrashIO-th file operation (0 = never)
 }
 
 type gstate struct {
@@ -123,6 +124,8 @@ type Sim struct {
 	seq       atomic.Uint64 // global event sequence for histories
 	uuid      atomic.Uint64
 	tmpn      atomic.Uint64
+	ioN       atomic.Int64 // file operations reached so far
+	crashSite atomic.Value // site of the file operation the injected crash preceded
 }
 
 type probe struct {
